@@ -175,18 +175,36 @@ def harness_index(am):
         modpath = "::".join(parts + [m["mod"]])
         src = os.path.join(am, "src", "amv_h", m["src"])
         txt = open(src).read()
+        # inline nested modules `mod name { .. }` of the harness file contribute to the harness path
+        spans = []
+        lines = txt.split("\n")
+        offs = [0]
+        for l in lines:
+            offs.append(offs[-1] + len(l) + 1)
+        for li, l in enumerate(lines):
+            mm = re.match(r"^\s*(?:pub(?:\(crate\))?\s+)?mod\s+(\w+)\s*\{\s*$", l)
+            if mm:
+                try:
+                    end = extract._match_brace(lines, li)
+                    spans.append((offs[li], offs[end + 1], mm.group(1)))
+                except Exception:
+                    pass
+
+        def qual(pos, name):
+            inner = [s[2] for s in sorted(spans) if s[0] <= pos < s[1]]
+            return "::".join([modpath] + inner + [name])
         for mm in re.finditer(r"kani::proof\)?\]\s*(?:#\[[^\]]*\]\s*)*(?:pub(?:\(crate\))?\s+)?fn\s+(\w+)\s*\(", txt):
             name = mm.group(1)
             if name in idx:
                 raise ToolError("duplicate harness name " + name)
-            idx[name] = modpath + "::" + name
+            idx[name] = qual(mm.start(), name)
         # instances generated by the `instances! { name => body; .. }` macro of the harness modules
-        for blk in re.finditer(r"instances!\s*\{(.*?)\n\}", txt, re.S):
+        for blk in re.finditer(r"instances!\s*\{(.*?)\n\s*\}", txt, re.S):
             for mm in re.finditer(r"^\s*(\w+)\s*=>", blk.group(1), re.M):
                 name = mm.group(1)
                 if name in idx:
                     raise ToolError("duplicate harness name " + name)
-                idx[name] = modpath + "::" + name
+                idx[name] = qual(blk.start(), name)
     return idx
 
 
